@@ -34,19 +34,25 @@ CARRY_OFFSETS = [Fraction(599996, 10000), Fraction(359999975, 100000), Fraction(
                  Fraction(3599) + Fraction(9996, 10000), Fraction(59) + Fraction(9994, 10000)]
 
 
+def apply_carry(rng, adoc):
+  """Shifts the body (and timed regions) so that the body begin, or an instant 1-3 s after it (where elements of the time grid
+  begin and end: a later cue, not only the first one), falls on a carry offset."""
+  off = rng.choice(CARRY_OFFSETS) - rng.choice([0, 0, 1, 2, 3])
+  adoc.body.begin = (adoc.body.begin or 0) + off
+  if adoc.body.end is not None:
+    adoc.body.end += off
+  for r in adoc.regions:
+    # keep timed regions aligned with the shifted content
+    if r.begin is not None:
+      r.begin += off
+    if r.end is not None:
+      r.end += off
+
+
 def gen(rng):
   adoc, classes = model_docs.generate(rng, "text", None, p_uspace=0.1)
   if adoc.body is not None and rng.random() < 0.25:
-    off = rng.choice(CARRY_OFFSETS)
-    adoc.body.begin = (adoc.body.begin or 0) + off
-    if adoc.body.end is not None:
-      adoc.body.end += off
-    for r in adoc.regions:
-      # keep timed regions aligned with the shifted content
-      if r.begin is not None:
-        r.begin += off
-      if r.end is not None:
-        r.end += off
+    apply_carry(rng, adoc)
     classes = set(classes) | {"carry-offset"}
   return adoc, classes
 
